@@ -38,5 +38,9 @@ impl<R: Round, const B: Word> FBig<R, B> {
 //@@ FN float/ebounds/fbig_ulp.rs
 }
 //@@ FN float/ebounds/zero.rs
+//@@ FN float/ebounds/away.rs
+//@@ FN float/ebounds/up.rs
+//@@ FN float/ebounds/down.rs
+//@@ FN float/ebounds/halfaway.rs
 } // verus!
 fn main() {}
